@@ -640,6 +640,9 @@ func (c08) Gen(r *kern.Rng, tier string, idx int) *Trace {
 	if r.Pct(20) {
 		sc.Ctor = "reset"
 	}
+	if sc.NoMulti && r.Pct(40) {
+		sc.ExtraBetween = r.Pick(1, 1, 2, 3)
+	}
 	return &Trace{Property: "C08", Family: "R-multi", R: sc}
 }
 
@@ -701,6 +704,10 @@ func (c08) Exec(tr *Trace, keep bool) *Outcome {
 		return o
 	}
 	// member by member
+	if rec.BetweenBad != "" && srec.BetweenBad == "" {
+		o.violate(tr, "C08.eof_not_sticky", rec.BetweenBad+" (compress/gzip keeps returning (0, io.EOF))", feat)
+		return o
+	}
 	if len(rec.Members) != len(srec.Members) {
 		o.violate(tr, "C08.member_payload", fmt.Sprintf("Multistream(false): fastgo saw %d members (last %v), compress/gzip %d (last %v)", len(rec.Members), rec.Err, len(srec.Members), srec.Err), feat)
 		return o
@@ -727,6 +734,12 @@ func (c08) Exec(tr *Trace, keep bool) *Outcome {
 	if sc.In.Suffix == nil && sc.Members == 0 && rec.Kind != "EOF" && srec.Kind == "EOF" {
 		o.violate(tr, "C08.reset_error", fmt.Sprintf("Reset after the last member must return io.EOF when nothing follows, got %v", rec.Err), feat)
 		return o
+	}
+	if rec.Kind == "EOF" && srec.Kind == "EOF" && rec.ResetErr == nil {
+		if ok, why := afterOK(rec); !ok {
+			o.violate(tr, "C08.eof_not_sticky", why, feat)
+			return o
+		}
 	}
 	if sc.Members > 0 && sc.In.Suffix != nil && rec.Kind == "EOF" && rec.SrcRestKnown && sc.Src.Kind == "bufio" {
 		o.stat("trailing_data_position_checked", 1)
